@@ -77,8 +77,8 @@ fn project(book: &umya::Spreadsheet) -> Value {
             let mut cols: Vec<Value> = ws
                 .get_column_dimensions()
                 .iter()
-                .filter(|c| *c.get_width() != 8.38 || *c.get_hidden() || !eff(c.get_style()).is_empty())
-                .map(|c| json!([c.get_col_num(), c.get_width(), c.get_hidden(), eff(c.get_style())]))
+                .filter(|c| *c.get_width() != 8.38 || *c.get_hidden() || *c.get_best_fit() || !eff(c.get_style()).is_empty())
+                .map(|c| json!([c.get_col_num(), c.get_width(), c.get_hidden(), eff(c.get_style()), c.get_best_fit()]))
                 .collect();
             cols.sort_by_key(|x| x[0].as_u64());
             // tables with everything they carry (columns, totals row label/function, style info)
